@@ -1,5 +1,5 @@
 (* C05/Proofs2.v — discarded packets and the handler-call log *)
-From OV Require Import Common.Base C05.Model C05.Proofs.
+From OV Require Import Common.Base C05.Model C05.Rfc2 C05.Proofs.
 Open Scope Z_scope.
 
 (* ------------------------------------------------------------ 11. discarded packets are invisible *)
@@ -11,6 +11,7 @@ Lemma discarded_unchanged c v f e : classify c f e = None -> step c v f e = clea
 Proof.
   destruct c as [mc mt lc]; destruct f as [s i r fl l a o hl]; destruct e as [| | | | |code id k data];
     try discriminate.
+  { cbn. destruct a; [destruct (r >? 0); discriminate|reflexivity]. }
   unfold classify; unfold_events; cbn.
     destruct lc; destruct v as [[|] [|]]; destruct (code_of code); cbn; try discriminate;
       try (destruct k; cbn; try discriminate; reflexivity);
@@ -75,7 +76,7 @@ Lemma hlog_step c v f e : hlog (step c v f e) = hcalls_of c f e ++ hlog f.
 Proof.
   destruct c as [mc mt lc]; destruct f as [s i r fl l a o hl]; destruct e as [| | | | |code id k data].
   1-4: destruct s; destruct v as [[|] [|]]; reflexivity.
-  - unfold step, timeout; cbn. destruct (r >? 0); destruct s; reflexivity.
+  - unfold step, timeout; cbn. destruct a; destruct (r >? 0); destruct s; reflexivity.
   - unfold hcalls_of, classify; unfold_events; cbn.
     destruct (id =? l); destruct lc; destruct v as [[|] [|]]; destruct (code_of code); destruct s;
       try destruct k; cbn; brk; cbn in *; try discriminate; try reflexivity.
@@ -91,19 +92,110 @@ Lemma stale_nonvac :
   confreq_content 1 (hlog (step default_cfg Repaired f (EInput 4 2 CGood [3; 5; 194; 35; 5]))).
 Proof. vm_compute. repeat split; try reflexivity. discriminate. Qed.
 
-(* ------------------------------------------------------------ 12. Restore / Kill (outside the event set) *)
+(* ------------------------------------------------------------ 12. Restore / Kill: the extended alphabet *)
 
-Lemma restore_kill_silent f :
-  outs (restore f) = [] /\ st (restore f) = Opened /\ armed (restore f) = false /\
-  restart (restore f) = 0 /\ hlog (restore f) = hlog f /\ lastReq (restore f) = lastReq f /\
+Lemma restore_kill_silent fixed c f :
+  outs (restore fixed c f) = [] /\ st (restore fixed c f) = Opened /\ armed (restore fixed c f) = false /\
+  restart (restore fixed c f) = (if fixed then maxConf c else 0) /\
+  hlog (restore fixed c f) = hlog f /\ lastReq (restore fixed c f) = lastReq f /\
   outs (kill f) = [] /\ st (kill f) = Closed /\ armed (kill f) = false /\ hlog (kill f) = hlog f.
 Proof. repeat split; reflexivity. Qed.
 
-(* observation: a restored session renegotiates with no retransmission budget, and Kill leaves an
-   outstanding This-Layer-Up without This-Layer-Down *)
-Lemma restore_kill_observations :
-  (let f := step default_cfg Repaired (restore init) (EInput 1 7 CGood []) in
-   st f = AckSent /\ restart f = 0 /\ st (step default_cfg Repaired f ETimeout) = Stopped) /\
-  (let f := run default_cfg Repaired init [EOpen; EUp; EInput 1 7 CGood []; EInput 2 1 CGood []] in
-   st f = Opened /\ st (kill f) = Closed /\ outs (kill f) = []).
+Inductive XEv := XE (e : Ev) | XKill | XRestore.
+Definition xstep (c : cfg) (v : variant) (fixed : bool) (f : fsm) (x : XEv) : fsm :=
+  match x with XE e => step c v f e | XKill => kill f | XRestore => restore fixed c f end.
+Fixpoint xrun c v fixed f (xs : list XEv) : fsm :=
+  match xs with [] => f | x :: xs => xrun c v fixed (xstep c v fixed f x) xs end.
+(* Restore and Kill are silent: they contribute nothing to the observable trace *)
+Fixpoint xtrace c v fixed f (xs : list XEv) : list Item :=
+  match xs with
+  | [] => []
+  | x :: xs => let f' := xstep c v fixed f x in
+               (match x with XE e => IEv e :: map IAct (outs f') | _ => [] end) ++ xtrace c v fixed f' xs
+  end.
+
+(* the discipline of the production call sites (internal/pppoe): Restore only on a freshly created
+   automaton (installInMemoryState: initPPP, then Restore), Kill only as the last operation
+   (terminate) *)
+Definition prod_history (restored : bool) (es : list Ev) (killed : bool) : list XEv :=
+  (if restored then [XRestore] else []) ++ map XE es ++ (if killed then [XKill] else []).
+
+Lemma xtrace_events c v fixed es : forall f tail,
+  xtrace c v fixed f (map XE es ++ tail) = trace c v f es ++ xtrace c v fixed (run c v f es) tail.
+Proof.
+  induction es as [|e es IH]; intros f tail; [reflexivity|].
+  cbn [map app xtrace xstep trace run]. rewrite IH. rewrite <- !app_assoc. reflexivity.
+Qed.
+
+Lemma xtrace_prod c v fixed restored es killed :
+  xtrace c v fixed init (prod_history restored es killed)
+  = trace c v (if restored then restore fixed c init else init) es.
+Proof.
+  unfold prod_history. destruct restored; cbn [app xtrace xstep]; rewrite xtrace_events;
+    destruct killed; cbn; rewrite ?app_nil_r; reflexivity.
+Qed.
+
+(* alternation over the extended alphabet, under the production discipline; a restored automaton
+   starts with an up outstanding (the session layer restores its own "open" flags) *)
+Lemma alternates_ext c v fixed restored es killed :
+  alternates restored (xtrace c v fixed init (prod_history restored es killed)) = true.
+Proof.
+  rewrite xtrace_prod. destruct restored.
+  - exact (alternates_from c v es (restore fixed c init)).
+  - exact (alternates_from c v es init).
+Qed.
+
+Lemma up_iff_opened_ext c v fixed restored es :
+  up_after restored (xtrace c v fixed init (prod_history restored es false))
+  = is_opened (st (xrun c v fixed init (prod_history restored es false))).
+Proof.
+  rewrite xtrace_prod.
+  assert (R : forall f tail, xrun c v fixed f (map XE es ++ tail) = xrun c v fixed (run c v f es) tail).
+  { induction es as [|e es IH]; intros f tail; [reflexivity|]. cbn. apply IH. }
+  unfold prod_history. destruct restored; cbn [app xrun xstep]; rewrite R; cbn [xrun].
+  - exact (up_iff_opened_from c v es (restore fixed c init)).
+  - exact (up_iff_opened_from c v es init).
+Qed.
+
+(* outside that discipline alternation fails: Kill in Opened followed by a new negotiation reports
+   up twice; Restore of an automaton that is negotiating, then Down, reports a down without an up *)
+Lemma alternates_ext_caveats :
+  alternates false (xtrace default_cfg Repaired true init
+     (map XE [EOpen; EUp; RCRp; RCA1] ++ [XKill] ++ map XE [EOpen; RCRp; EInput 2 2 CGood []])) = false /\
+  alternates false (xtrace default_cfg Repaired true init
+     (map XE [EOpen; EUp] ++ [XRestore] ++ map XE [EDown])) = false.
+Proof. vm_compute. split; reflexivity. Qed.
+
+(* Restore as it stands (restart counter 0): the first renegotiation of a restored session gets no
+   retransmission; with the counter initialised (fixes/C05_restore_restart_counter.patch) it gets
+   Max-Configure *)
+Lemma restore_budget_refuted :
+  let f := step default_cfg Repaired (restore false default_cfg init) RCRp in
+  st f = AckSent /\ restart f = 0 /\ armed f = true /\
+  st (step default_cfg Repaired f ETimeout) = Stopped /\
+  count_acts is_retrans (trace default_cfg Repaired f [ETimeout]) = 0%nat.
 Proof. vm_compute. repeat split; reflexivity. Qed.
+
+Lemma restore_budget_nonvac :
+  let f := step default_cfg Repaired (restore true default_cfg init) RCRp in
+  st f = AckSent /\ restart f = 10 /\ st (step default_cfg Repaired f ETimeout) = AckSent /\
+  count_acts is_retrans (trace default_cfg Repaired f [ETimeout]) = 1%nat.
+Proof. vm_compute. repeat split; reflexivity. Qed.
+
+(* the timer callback of today's code run late in Opened eats one retransmission of the next
+   negotiation; as an event of the model (a timer expiry needs a pending timer) it does nothing *)
+Lemma late_fire_refuted :
+  let f := run default_cfg Repaired init [EOpen; EUp; RCRp; RCA1] in
+  st f = Opened /\ armed f = false /\
+  restart (raw_timeout f) = 9 /\ step default_cfg Repaired f ETimeout = clear_out f /\
+  restart (step default_cfg Repaired (raw_timeout f) RCRp) = 9 /\
+  restart (step default_cfg Repaired (step default_cfg Repaired f ETimeout) RCRp) = 10.
+Proof. vm_compute. repeat split; reflexivity. Qed.
+
+(* ------------------------------------------------------------ 13. the two transcriptions of the table agree *)
+
+Lemma rfc_tables_agree : forall s e, cell_matches s e = true.
+Proof. intros s e; destruct s; destruct e; vm_compute; reflexivity. Qed.
+
+Lemma rfc_tables_agree_all : tables_agree = true.
+Proof. vm_compute. reflexivity. Qed.
